@@ -22,3 +22,114 @@ package parser
 //@   ensures[accepted_calls_have_the_prototype_argument_kinds] result0 == nil ==> (forall k int :: 0 <= k && k < len(expr.Args) ==> expr.Args[k].Kind == funcProtos[expr.Fun.Name][k])
 //@   loop 1 invariant 0 <= rangeindex + 1 && rangeindex + 1 <= len(argsType) && (forall k int :: 0 <= k && k <= rangeindex ==> expr.Args[k].Kind == argsType[k])
 //@   ensures[unknown_primitives_rejected] !has(funcProtos, expr.Fun.Name) ==> result0 != nil
+
+// ---- C17: the scanner never slices or indexes outside the source text ----
+// Every index and slice expression of the scanner is an obligation, for every source text and every scanner
+// position that next() can produce. (Found and fixed: an unterminated string literal at the end of the input
+// sliced src[offs+1 : offset-1] with the bounds crossed.)
+
+//@ spec wfScan(s *Scanner) bool := s != nil && 0 <= s.offset && s.offset <= s.rdOffset && s.rdOffset <= len(s.src) && (s.ch < 0 ==> s.offset == len(s.src)) && (s.ch >= 0 ==> s.offset < s.rdOffset)
+
+//@ func (*Scanner).error
+//@   props C17
+//@   trusted the error handler installed by the parser and token.File.Pos are arbitrary code; they are assumed to leave the scanner alone (the handler only collects messages)
+//@   modifies s.ErrorCount
+
+//@ func (*Scanner).next
+//@   props C17
+//@   nopanic index,slice
+//@   requires s != nil && 0 <= s.offset && s.offset <= s.rdOffset && s.rdOffset <= len(s.src)
+//@   frame AddLine pure
+//@   note recording line starts in the token.File is assumed not to write the scanner
+//@   modifies s.offset, s.rdOffset, s.ch, s.lineOffset, s.ErrorCount
+//@   ensures[the_scanner_moves_to_the_next_character] wfScan(s) && s.offset == old(s.rdOffset)
+
+//@ func (*Scanner).skipWhitespace
+//@   props C17
+//@   nopanic index,slice
+//@   requires wfScan(s)
+//@   modifies s.offset, s.rdOffset, s.ch, s.lineOffset, s.ErrorCount
+//@   ensures wfScan(s) && s.offset >= old(s.offset)
+//@   loop 1 invariant wfScan(s) && s.offset >= old(s.offset)
+
+//@ func (*Scanner).scanIdentifier
+//@   props C17
+//@   nopanic index,slice
+//@   requires wfScan(s)
+//@   frame isLetter pure
+//@   frame isDigit pure
+//@   modifies s.offset, s.rdOffset, s.ch, s.lineOffset, s.ErrorCount
+//@   ensures wfScan(s) && s.offset >= old(s.offset)
+//@   loop 1 invariant wfScan(s) && s.offset >= old(s.offset)
+
+//@ func stripCR
+//@   props C17
+//@   nopanic index,slice
+//@   modifies nothing
+//@   loop 1 invariant 0 <= i && i <= rangeindex + 1 && len(c) == len(b)
+
+//@ func (*Scanner).scanString
+//@   props C17
+//@   nopanic index,slice
+//@   requires wfScan(s) && s.offset >= 1
+//@   modifies s.offset, s.rdOffset, s.ch, s.lineOffset, s.ErrorCount
+//@   ensures wfScan(s) && s.offset >= old(s.offset)
+//@   loop 1 invariant wfScan(s) && s.offset >= old(s.offset)
+
+//@ func (*Scanner).scanEscape
+//@   props C17
+//@   nopanic index,slice
+//@   requires wfScan(s)
+//@   frame Sprintf pure
+//@   modifies s.offset, s.rdOffset, s.ch, s.lineOffset, s.ErrorCount
+//@   ensures wfScan(s) && s.offset >= old(s.offset)
+//@   loop 1 invariant wfScan(s) && s.offset >= old(s.offset)
+
+//@ func (*Scanner).scanRawString
+//@   props C17
+//@   nopanic index,slice
+//@   requires wfScan(s) && s.offset >= 1
+//@   modifies s.offset, s.rdOffset, s.ch, s.lineOffset, s.ErrorCount
+//@   ensures wfScan(s) && s.offset >= old(s.offset)
+//@   loop 1 invariant wfScan(s) && s.offset >= old(s.offset)
+
+//@ func (*Scanner).scanComment
+//@   props C17
+//@   nopanic index,slice
+//@   requires wfScan(s) && s.offset >= 1
+//@   modifies s.offset, s.rdOffset, s.ch, s.lineOffset, s.ErrorCount
+//@   ensures wfScan(s) && s.offset >= old(s.offset)
+//@   loop 1 invariant wfScan(s) && s.offset >= old(s.offset)
+
+//@ func (*Scanner).scanMantissa
+//@   props C17
+//@   nopanic index,slice
+//@   requires wfScan(s)
+//@   modifies s.offset, s.rdOffset, s.ch, s.lineOffset, s.ErrorCount
+//@   ensures wfScan(s) && s.offset >= old(s.offset)
+//@   loop 1 invariant wfScan(s) && s.offset >= old(s.offset)
+
+//@ func digitVal
+//@   props C17
+//@   modifies nothing
+
+//@ func (*Scanner).scanNumber
+//@   props C17
+//@   nopanic index,slice
+//@   requires wfScan(s)
+//@   requires[the_decimal_point_was_consumed] seenDecimalPoint ==> s.offset >= 1
+//@   modifies s.offset, s.rdOffset, s.ch, s.lineOffset, s.ErrorCount
+//@   ensures wfScan(s) && s.offset >= old(s.offset)
+
+//@ func (*Scanner).Scan
+//@   props C17
+//@   nopanic index,slice
+//@   requires wfScan(s)
+//@   frame Pos pure
+//@   frame isLetter pure
+//@   frame isDigit pure
+//@   frame Lookup pure
+//@   frame Sprintf pure
+//@   modifies s.offset, s.rdOffset, s.ch, s.lineOffset, s.ErrorCount
+//@   ensures wfScan(s)
+//@   loop 1 invariant wfScan(s)
